@@ -51,8 +51,10 @@ func NewQuery(queryString string) (*Query, error) {
 
 	if query.stmt.Condition != nil {
 		query.stmt.Condition = &influxql.BinaryExpr{
-			Op:  influxql.AND,
-			LHS: query.stmt.Condition,
+			Op: influxql.AND,
+			// Keep the user's condition grouped: String() prints no
+			// parentheses of its own and OR binds weaker than AND.
+			LHS: &influxql.ParenExpr{Expr: query.stmt.Condition},
 			RHS: &influxql.BinaryExpr{
 				Op:  influxql.AND,
 				LHS: startExpr,
